@@ -400,15 +400,10 @@ REP_COUNTS = [10, 20, 30, 100, 101, 105, 110, 5, 6, 7, 8, 9, 11, 12, 99, 112]
 def rep_count(rng, lo, hi):
     return rng.choice(REP_COUNTS) if rng.random() < 0.4 else rng.randint(lo, hi)
 
-_impl_only = False
-
 def open_typed_array(rng):
     """an array that ends in an open range written in the explicit form "a b ..." over booleans
     (the step of an alternation is 'true'), floats or integers; nested, repeated or plain"""
-    global _impl_only
     k = rng.choice("BBBfi")
-    if k in "Bf":
-        _impl_only = True       # the scan model has no boolean / float steps: judged by the Spec oracle only (kind xs)
     if k == "B":
         a, b = rng.choice([True, False]), rng.choice([True, False])
         lit = lambda v: "true" if v else "false"
@@ -491,8 +486,6 @@ def gen(rng, tier, dist):
         dist[k] = dist.get(k, 0) + 1
     for _ in range(n):
         nw = rng.choice([1, 1, 2, 2, 3, 4, 6, 10])
-        global _impl_only
-        _impl_only = False
         text, slots, kind = "", [], "sc"
         prev_t = ""
         lead = rng.random()
@@ -532,8 +525,6 @@ def gen(rng, tier, dist):
             if j + 1 < nw or rng.random() < 0.3:
                 text += sep(rng)
         bump("words=%d" % nw)
-        if _impl_only and kind == "sc":
-            kind = "xs"
         bump(kind)
         out.append("%s %s %s" % (kind, text.encode("latin-1").hex(), ";".join(slots)))
     return out
